@@ -39,7 +39,7 @@ MUT = [
  ("c18_status_from_isready", HE, "\tif status[OverallReady] == ComponentReady {", "\tif o.IsReady() {", ["C18"]),
  ("c19_missing_inc_invalid_user", SP, "\t// Increment metric even if it fails to write the event\n\tconfig.metrics.IncLogins(metrics.UnknownLogin, metrics.Failure)\n\n\tevt.LoggedAt = config.when", "\tevt.LoggedAt = config.when", ["C19"]),
  ("c19_wrong_outcome_label_cert_invalid", SP, "config.metrics.IncLogins(metrics.SSHCertLogin, metrics.Failure)", "config.metrics.IncLogins(metrics.SSHCertLogin, metrics.Success)", ["C19"]),
- ("c20_no_reset_on_rename", DR, "\tcase fsnotify.Create, fsnotify.Remove, fsnotify.Rename:", "\tcase fsnotify.Remove, fsnotify.Rename:", ["C20"]),
+ ("c20_no_reset_on_create_rename", DR, "\tcase fsnotify.Create, fsnotify.Remove, fsnotify.Rename:", "\tcase fsnotify.Remove:", ["C20"]),
  ("c03_unlock_between_scan_and_park", ST, "\tif debugLogger != nil {\n\t\tdebugLogger.Debugln(\"no matching audit session found\")\n\t}\n", "\tif debugLogger != nil {\n\t\tdebugLogger.Debugln(\"no matching audit session found\")\n\t}\n\n\to.mu.Unlock()\n\tif common.VerifHooks {\n\t\tcommon.VerifAfterUnlock(&o.mu)\n\t\tcommon.VerifBeforeLock(&o.mu)\n\t}\n\to.mu.Lock()\n", ["C03"]),
  ("c13_syslog_ignores_ctx", SP, "\tselect {\n\tcase <-config.ctx.Done():\n\t\treturn nil\n\tcase config.logins <- common.RemoteUserLogin{\n\t\tSource:     evt,\n\t\tPID:        pid,\n\t\tCredUserID: common.UnknownUser,\n\t}:\n\t\treturn nil\n\t}\n}\n\nfunc getCertificateInvalidReason", "\tconfig.logins <- common.RemoteUserLogin{\n\t\tSource:     evt,\n\t\tPID:        pid,\n\t\tCredUserID: common.UnknownUser,\n\t}\n\treturn nil\n}\n\nfunc getCertificateInvalidReason", ["C13", "C05"]),
  ("c10_login_forward_before_write_pubkey", SP, "\t\tif err := config.eventW.Write(evt); err != nil {\n\t\t\t// NOTE(jaosorior): Not being able to write audit events\n\t\t\t// merits us panicking here.\n\t\t\treturn fmt.Errorf(\"failed to write event: %w\", err)\n\t\t}\n\t\tselect {\n\t\tcase <-config.ctx.Done():\n\t\t\treturn nil\n\t\tcase config.logins <- common.RemoteUserLogin{\n\t\t\tSource:     evt,\n\t\t\tPID:        pid,\n\t\t\tCredUserID: common.UnknownUser,\n\t\t}:\n\t\t\treturn nil\n\t\t}\n\t}\n\n\tcertIdentifierStringStart", "\t\tselect {\n\t\tcase <-config.ctx.Done():\n\t\t\treturn nil\n\t\tcase config.logins <- common.RemoteUserLogin{\n\t\t\tSource:     evt,\n\t\t\tPID:        pid,\n\t\t\tCredUserID: common.UnknownUser,\n\t\t}:\n\t\t}\n\t\tif err := config.eventW.Write(evt); err != nil {\n\t\t\treturn fmt.Errorf(\"failed to write event: %w\", err)\n\t\t}\n\t\treturn nil\n\t}\n\n\tcertIdentifierStringStart", ["C05", "C10"]),
